@@ -45,6 +45,7 @@ func checkC13(c *Ctx, r *Report) {
 	c13Names(c, r, vreach)
 	c13InOut(c, r, vreach)
 	c13Wrap(c, r)
+	tableIncrRule(c, r, "C13.UNIQT", "two definitions of one type or directive name in a single document are both accepted: the uniqueness rule for type names is not enforced inside one load")
 	c13NonEmpty(c, r, vreach)
 	c13DirUse(c, r, vreach)
 	c13Drop(c, r, vreach)
